@@ -318,7 +318,8 @@ def main():
             "obligations": n_obl, "discharged": n_dis,
             "checker_cmd": f"make -C /verif/coq -f Makefile.coq {info['props'][:-2]}.vo && coqc -Q . FM {info['props']}"
                            + (" && coqchk -o" if tier == "thorough" else ""),
-            "trusted_base": registry.TRUSTED_BASE + info.get("trusted", []),
+            "trusted_base": registry.TRUSTED_BASE + info.get("trusted", [])
+                            + (registry.SRC_TRUSTED if info.get("src") else []),
             "obligation_list": [{"name": n, "ok": ok, "note": note[:300]} for n, ok, note in obligations],
             "print_assumptions": assumptions_txt[-4000:],
             "coqchk": coqchk_txt,
